@@ -12,6 +12,8 @@
  *         N<pspec>/<sspec>:<val>    numeric directive: written with %<pspec>, read with %<sspec>
  *                                   ('_' in a spec stands for the space flag); val = <dec> for integer
  *                                   conversions, 16 hex digits (bit pattern) for f
+ *         X<sspec>:<hex>            raw text (written with %s from a String) read with %<sspec>: validates
+ *                                   the scanner model on text that no writer produces (overflow, signs, junk)
  * stdout, one line per case:
  *   W<hex of the whole sink content>;<position returned by the writer>|R<v>,<v>,...;<position returned by the reader>
  *   v = i<dec> | f<16 hex> | s<hex>;   an exception is reported as W!<Name> resp. R!<Name>
@@ -87,12 +89,21 @@ static int parse_items(char* s) {
       char conv = it->pspec[strlen(it->pspec) - 1];
       if (conv == 'f' || conv == 'F') { it->vt = 'f'; it->fb = strtoull(co + 1, NULL, 16); }
       else { it->vt = 'i'; it->iv = strtoll(co + 1, NULL, 10); }
+    } else if (tok[0] == 'X') {
+      char* co = strchr(tok, ':');
+      if (!co) return 0;
+      spec_copy(it->sspec, tok + 1, (size_t)(co - tok - 1));
+      strcpy(it->pspec, "s");
+      it->bytes = unhex(co + 1);
+      char conv = it->sspec[strlen(it->sspec) - 1];
+      it->vt = (conv == 'f' || conv == 'F') ? 'f' : 'i';
     } else return 0;
   }
   return 1;
 }
 
 static var mkval(struct item* it) {
+  if (it->kind == 'X') return new_raw(String, $S(it->bytes));
   if (it->vt == 'i') return new_raw(Int, $I(it->iv));
   if (it->vt == 'f') return new_raw(Float, $F(dbl_of_bits(it->fb)));
   return new_raw(String, $S(it->bytes));
